@@ -32,9 +32,10 @@ type OBUSpec struct {
 type AV1Case struct {
 	MTU         uint16    `json:"mtu"`
 	OBUs        []OBUSpec `json:"obus"`
-	LastNoSize  bool      `json:"last_no_size"`  // the last OBU omits its size field
-	NonMinimal  bool      `json:"non_minimal"`   // size fields use a non-minimal LEB128 (one extra group)
-	UsePkgAlias bool      `json:"use_pkg_alias"` // deprecated path through pkg/frame
+	LastNoSize  bool      `json:"last_no_size"`        // the last OBU omits its size field
+	NonMinimal  bool      `json:"non_minimal"`         // size fields use a non-minimal LEB128 (one extra group)
+	UsePkgAlias bool      `json:"use_pkg_alias"`       // deprecated path through pkg/frame
+	SharedRx    bool      `json:"shared_rx,omitempty"` // payloads reach the depacketizers through one receive buffer, wiped before each delivery
 }
 
 var (
@@ -123,6 +124,10 @@ func checkC13(r *run, c *AV1Case) (CaseInfo, error) {
 	var re av1rtp.Reasm
 	var got [][]byte
 	var dep codecs.AV1Depacketizer
+	var rx []byte
+	if c.SharedRx {
+		ci.class("one-receive-buffer")
+	}
 	var depOut []byte
 	var old codecs.AV1Packet
 	var asm frame.AV1
@@ -183,7 +188,20 @@ func checkC13(r *run, c *AV1Case) (CaseInfo, error) {
 		got = append(got, units...)
 
 		// AV1Depacketizer on the same stream
-		out, err := dep.Unmarshal(clone(p))
+		deliver := func() []byte {
+			if !c.SharedRx {
+				return clone(p)
+			}
+			if len(rx) < len(p) {
+				rx = make([]byte, len(p)+64)
+			}
+			for k := range rx {
+				rx[k] = 0xEE
+			}
+
+			return rx[:copy(rx, p)]
+		}
+		out, err := dep.Unmarshal(deliver())
 		if err != nil {
 			return ci, failf("%s: AV1Depacketizer rejects the payloader's output: %v", what, err)
 		}
@@ -196,7 +214,7 @@ func checkC13(r *run, c *AV1Case) (CaseInfo, error) {
 		}
 		// deprecated AV1Packet (fresh per packet) + frame assembler
 		old = codecs.AV1Packet{}
-		if _, err := old.Unmarshal(clone(p)); err != nil {
+		if _, err := old.Unmarshal(deliver()); err != nil {
 			return ci, failf("%s: AV1Packet rejects the payloader's output: %v", what, err)
 		}
 		var obus [][]byte
@@ -358,6 +376,18 @@ func checkC13Hdr(r *run, c *HdrCase) (CaseInfo, error) {
 			return ci, failf("ParseOBUHeader accepts %s without the announced extension byte", hx(in[:1]))
 		}
 	}
+	// the caller owns a parsed header: rewriting its fields (a forwarder changing layer ids) must not reach later parses
+	if ref.HasExt {
+		keep := *h.ExtensionHeader
+		h.ExtensionHeader.TemporalID ^= 7
+		h.ExtensionHeader.SpatialID ^= 3
+		h.ExtensionHeader.Reserved3Bits ^= 7
+		again, err := obu.ParseOBUHeader(in)
+		if err != nil || again.ExtensionHeader == nil || *again.ExtensionHeader != keep {
+			return ci, failf("ParseOBUHeader(%s) after the caller rewrote the fields of an earlier result for the same bytes: %+v (%v), want %+v", hx(in), again.ExtensionHeader, err, keep)
+		}
+		*h.ExtensionHeader = keep
+	}
 	// OBU.Marshal composes header, size and payload
 	o := obu.OBU{Header: *h, Payload: []byte{c.B1, c.B0, 7}}
 	exp := clone(in[:ref.Len])
@@ -380,7 +410,7 @@ var av1Types = []uint8{1, 2, 3, 4, 5, 6, 6, 6, 7, 8, 15, 0, 9, 10, 11, 12, 13, 1
 // or next to a LEB128 size boundary (127/128, 16383/16384). The MTU is derived from
 // the drawn OBUs so that the boundary is hit exactly.
 func genAV1EdgeCase(t *rapid.T) *AV1Case {
-	c := &AV1Case{LastNoSize: genBool(t, "lastnosize"), UsePkgAlias: genBool(t, "alias")}
+	c := &AV1Case{LastNoSize: genBool(t, "lastnosize"), UsePkgAlias: genBool(t, "alias"), SharedRx: genBool(t, "sharedrx")}
 	k := rapid.IntRange(0, 5).Draw(t, "nsmall")
 	prefix := 0
 	ext := genBool(t, "ext")
@@ -421,7 +451,7 @@ func genAV1Case(t *rapid.T) *AV1Case {
 	if rapid.IntRange(0, 5).Draw(t, "edgemode") == 0 {
 		return genAV1EdgeCase(t)
 	}
-	c := &AV1Case{LastNoSize: rapid.IntRange(0, 3).Draw(t, "lastnosize") == 0, NonMinimal: rapid.IntRange(0, 9).Draw(t, "nonminimal") == 0, UsePkgAlias: genBool(t, "alias")}
+	c := &AV1Case{LastNoSize: rapid.IntRange(0, 3).Draw(t, "lastnosize") == 0, NonMinimal: rapid.IntRange(0, 9).Draw(t, "nonminimal") == 0, UsePkgAlias: genBool(t, "alias"), SharedRx: genBool(t, "sharedrx")}
 	c.MTU = uint16(biased(t, "mtu", 2, 65535, append([]int{2, 3, 4, 5, 6, 7, 8, 9, 10, 16, 20, 1200}, around(3, 130, 16385)...)...))
 	mtu := int(c.MTU)
 	nobu := rapid.IntRange(1, 8).Draw(t, "nobus")
@@ -493,7 +523,7 @@ func TestC13(t *testing.T) {
 			return
 		}
 		r.col.Bulk("obuheader", total, total, map[string]int64{"enum:obu-header-pairs": total})
-		r.col.Exhaustive("C13 all 2^16 OBU header byte pairs", envShards == 1)
+		r.col.Exhaustive("C13 all 2^16 OBU header byte pairs (parse, marshal, re-parse after the caller rewrote the fields of the first result)", envShards == 1)
 	}
 	// LEB128
 	var total int64
